@@ -45,6 +45,50 @@ MUTS = {
 }
 # several edits at once: (name, [(file, old, new), ...])
 MULTI = {
+ "K1-adapted-protos-remembered-across-builds": [
+    ("src/spox/_graph.py", "@dataclass(frozen=True, eq=False)\nclass Graph:", "import weakref\n_ADAPTED: 'weakref.WeakKeyDictionary' = weakref.WeakKeyDictionary()\n\n\n@dataclass(frozen=True, eq=False)\nclass Graph:"),
+    ("src/spox/_graph.py", """            best_effort = adapt_best_effort(
+                node,
+                list(protos),
+                self.get_opsets(),
+                self._get_build_result().scope.var.name_of,
+                self._get_build_result().scope.node.name_of,
+            )
+""", """            _key = (self._get_build_result().scope.node.name_of[node], tuple(sorted(self.get_opsets().items())))
+            _memo = _ADAPTED.setdefault(node, {})
+            if _key not in _memo:
+                _memo[_key] = adapt_best_effort(
+                    node,
+                    list(protos),
+                    self.get_opsets(),
+                    self._get_build_result().scope.var.name_of,
+                    self._get_build_result().scope.node.name_of,
+                )
+            best_effort = _memo[_key]
+"""),
+ ],
+ "K2-adapted-protos-remembered-per-node-only": [
+    ("src/spox/_graph.py", "@dataclass(frozen=True, eq=False)\nclass Graph:", "import weakref\n_ADAPTED: 'weakref.WeakKeyDictionary' = weakref.WeakKeyDictionary()\n\n\n@dataclass(frozen=True, eq=False)\nclass Graph:"),
+    ("src/spox/_graph.py", """            best_effort = adapt_best_effort(
+                node,
+                list(protos),
+                self.get_opsets(),
+                self._get_build_result().scope.var.name_of,
+                self._get_build_result().scope.node.name_of,
+            )
+""", """            _key = tuple(sorted(self.get_opsets().items()))
+            _memo = _ADAPTED.setdefault(node, {})
+            if _key not in _memo:
+                _memo[_key] = adapt_best_effort(
+                    node,
+                    list(protos),
+                    self.get_opsets(),
+                    self._get_build_result().scope.var.name_of,
+                    self._get_build_result().scope.node.name_of,
+                )
+            best_effort = _memo[_key]
+"""),
+ ],
  "E1-policy-groups-by-raw-domain": [
     ("src/spox/_schemas.py", '    opset_req = {(k if k != "ai.onnx" else "", v) for k, v in opset_req}\n', ''),
     ("src/spox/_schemas.py", "return {domain: max(v for _, v in group) for domain, group in grouping}", "return {(domain if domain != 'ai.onnx' else ''): max(v for _, v in group) for domain, group in grouping}"),
